@@ -38,10 +38,23 @@ Ltac word_unfold :=
   change (2 ^ 127) with 170141183460469231731687303715884105728 in *.
 
 (* ---------------------------------------------------------------- Montgomery reduction *)
-Lemma montyred_spec x : 0 <= x < P * 2 ^ 64 ->
-  0 <= montyred x < P /\ exists k, montyred x * 2 ^ 64 = x + k * P.
+(* The specification is proved for a FROZEN transcription of the function (the translation of the pinned source) and then
+   carried over to the REGENERATED `montyred` by `montyred_eq_ref`, whose proof is a case split and linear arithmetic only:
+   it goes through for any re-spelling of the same straight-line computation (explicit carry tests instead of
+   `overflowing_add`, `if c { r + P } else { r }` instead of `r - (2^64 - P) * c`, a named constant, ...), and fails -
+   as it must - when the computed value differs on some input. *)
+Definition montyred_ref (x : Z) : Z :=
+  (let xl := (ucast 64 x) in
+  (let xh := (ucast 64 (wshr x 64)) in
+  (let '(a, e) := (ovf_add 64 xl (wshl 64 xl 32)) in
+  (let b := (wsub 64 (wsub 64 a (wshr a 32)) (b2z e)) in
+  (let '(r, c) := (ovf_sub 64 xh b) in
+  (wsub 64 r (wmul 64 (wadd 64 1 (wnot 64 P)) (b2z c)))))))).
+
+Lemma montyred_ref_spec x : 0 <= x < P * 2 ^ 64 ->
+  0 <= montyred_ref x < P /\ exists k, montyred_ref x * 2 ^ 64 = x + k * P.
 Proof.
-  intros Hx. unfold montyred, P in *. word_unfold.
+  intros Hx. unfold montyred_ref, P in *. word_unfold.
   set (xl := x mod 18446744073709551616).
   set (xh := (x / 18446744073709551616) mod 18446744073709551616).
   destruct (18446744073709551616 <=? xl + (xl * 4294967296) mod 18446744073709551616) eqn:E;
@@ -53,6 +66,18 @@ Proof.
   - exists (- a). subst xl xh a b; lia.
   - exists (- a + 18446744073709551616). subst xl xh a b; lia.
   - exists (- a). subst xl xh a b; lia.
+Qed.
+
+Lemma montyred_eq_ref x : 0 <= x < 2 ^ 128 -> montyred x = montyred_ref x.
+Proof.
+  intros Hx. unfold montyred, montyred_ref, P. word_unfold.
+  repeat match goal with |- context [if ?c then _ else _] => destruct c eqn:? end; cbn [fst snd]; lia.
+Qed.
+
+Lemma montyred_spec x : 0 <= x < P * 2 ^ 64 ->
+  0 <= montyred x < P /\ exists k, montyred x * 2 ^ 64 = x + k * P.
+Proof.
+  intros Hx. rewrite montyred_eq_ref by (unfold P in *; word_unfold; lia). apply montyred_ref_spec. exact Hx.
 Qed.
 
 Lemma montyred_ok_all x : 0 <= x < 2 ^ 128 -> montyred_ok x = true.
